@@ -254,6 +254,35 @@ func pointTarget(c *mon.Case) {
 	default:
 		p, kind = gen.Uniform(r), "uniform"
 	}
+	if r.Intn(12) == 0 {
+		// within 1e-12..1e-6 rad of a pole of the great circle of one cell edge (or exactly there): the target is
+		// 90 degrees from every point of that edge
+		j := r.Intn(4)
+		pole := s2.Point{Vector: cell.Vertex(j).PointCross(cell.Vertex((j + 1) % 4)).Normalize()}
+		if r.Intn(2) == 0 {
+			pole = s2.Point{Vector: pole.Mul(-1)}
+		}
+		p, kind = gen.Near(r, pole, gen.LogUniform(r, 1e-12, 1e-6)), "near-pole-of-an-edge-circle"
+		if r.Intn(8) == 0 {
+			p = pole
+		}
+		c.Count("dist.point.near_pole_of_edge_circle", 1)
+	}
+	// the planar (u,v,w) formulas cancel when the target is perpendicular to the plane of a cell edge
+	// ("this calculation loses accuracy as the angle approaches pi/2" in the source): misses of that kind up to
+	// 6e-8 in squared chord length (3e-8 rad) are classified separately
+	class := func(e float64) string {
+		if kind != "near-pole-of-an-edge-circle" {
+			return mon.Severity(e)
+		}
+		switch {
+		case math.IsNaN(e):
+			return "near-pole-of-an-edge-circle/not-a-number"
+		case e <= 6e-8:
+			return "near-pole-of-an-edge-circle/cancellation-near-90-degrees"
+		}
+		return "near-pole-of-an-edge-circle/" + mon.Severity(e)
+	}
 	det := func(extra map[string]any) any {
 		d := map[string]any{"cell": cell.ID().ToToken(), "level": cell.Level(), "target": gen.Hex(p), "target_kind": kind}
 		for k, v := range extra {
@@ -278,12 +307,12 @@ func pointTarget(c *mon.Case) {
 	}
 	d := float64(cell.Distance(p))
 	c.Max("Distance.max_error_over_tolerance", math.Abs(d-trueMin)/tol(d))
-	if math.Abs(d-trueMin) > tol(math.Max(d, trueMin)) {
-		c.Violation("Distance/point/"+mon.Severity(math.Abs(d-trueMin)), fmt.Sprintf("Distance=%.17g, exact %.17g (target inside: %v)", d, trueMin, inside), det(nil))
+	if !(math.Abs(d-trueMin) <= tol(math.Max(d, trueMin))) {
+		c.Violation("Distance/point/"+class(math.Abs(d-trueMin)), fmt.Sprintf("Distance=%.17g, exact %.17g (target inside: %v)", d, trueMin, inside), det(nil))
 	}
 	b := float64(cell.BoundaryDistance(p))
-	if math.Abs(b-bd) > tol(math.Max(b, bd)) {
-		c.Violation("BoundaryDistance/point/"+mon.Severity(math.Abs(b-bd)), fmt.Sprintf("BoundaryDistance=%.17g, exact distance to the nearest boundary geodesic %.17g (target inside: %v)", b, bd, inside), det(nil))
+	if !(math.Abs(b-bd) <= tol(math.Max(b, bd))) {
+		c.Violation("BoundaryDistance/point/"+class(math.Abs(b-bd)), fmt.Sprintf("BoundaryDistance=%.17g, exact distance to the nearest boundary geodesic %.17g (target inside: %v)", b, bd, inside), det(nil))
 	}
 	// maximum distance: duality through the antipode, and bounds over sample points
 	mx := float64(cell.MaxDistance(p))
@@ -294,17 +323,17 @@ func pointTarget(c *mon.Case) {
 		}
 		return trueDistToBoundary(cell, anti)
 	}()
-	if math.Abs(mx-trueMax) > tol(4-math.Min(mx, trueMax))+4e-16*4 {
-		c.Violation("MaxDistance/point/"+mon.Severity(math.Abs(mx-trueMax)), fmt.Sprintf("MaxDistance=%.17g, exact %.17g", mx, trueMax), det(nil))
+	if !(math.Abs(mx-trueMax) <= tol(4-math.Min(mx, trueMax))+4e-16*4) {
+		c.Violation("MaxDistance/point/"+class(math.Abs(mx-trueMax)), fmt.Sprintf("MaxDistance=%.17g, exact %.17g", mx, trueMax), det(nil))
 	}
 	for _, s := range samples(r, cell) {
 		cs := ref.Fl(ref.Chord2(hp(p), hp(s)))
-		if cs < d-tol(d) {
-			c.Violation("Distance/point/cell-point-closer-than-minimum/"+mon.Severity(d-cs), fmt.Sprintf("a point of the cell is at %.17g, closer than the reported minimum %.17g", cs, d), det(map[string]any{"cell_point": gen.Hex(s)}))
+		if cs < d-tol(d) || math.IsNaN(d) {
+			c.Violation("Distance/point/cell-point-closer-than-minimum/"+class(d-cs), fmt.Sprintf("a point of the cell is at %.17g, closer than the reported minimum %.17g", cs, d), det(map[string]any{"cell_point": gen.Hex(s)}))
 			break
 		}
-		if cs > mx+tol(4-mx)+4e-16*4 {
-			c.Violation("MaxDistance/point/cell-point-farther-than-maximum/"+mon.Severity(cs-mx), fmt.Sprintf("a point of the cell is at %.17g, farther than the reported maximum %.17g", cs, mx), det(map[string]any{"cell_point": gen.Hex(s)}))
+		if cs > mx+tol(4-mx)+4e-16*4 || math.IsNaN(mx) {
+			c.Violation("MaxDistance/point/cell-point-farther-than-maximum/"+class(cs-mx), fmt.Sprintf("a point of the cell is at %.17g, farther than the reported maximum %.17g", cs, mx), det(map[string]any{"cell_point": gen.Hex(s)}))
 			break
 		}
 	}
